@@ -66,6 +66,8 @@ def event_token(ev):
         return f"{k}@{ev[1]}:{ev[2]}"
     if k == "F":
         return f"F@{ev[1]}:{ev[2]}:{_b(ev[3])}"
+    if k == "H":
+        return f"H@{ev[1]}:{ev[2]}:{ev[3]}:{ev[4]}"
     return f"{k}@{ev[1]}"
 
 
@@ -159,6 +161,19 @@ class Runner:
             return                      # a closed transport delivers nothing
         now = self.loop.now_ticks()
         assert now == ev[1], (now, ev)
+        iters = ev[13] if (ev[0] == "S" and len(ev) > 13) else 0
+        if iters and not getattr(self, "_deferred", None) == id(ev):
+            # "k event-loop iterations later, at the same tick": used to hit the window in which a
+            # shutdown is in progress
+            def later(n):
+                if n == 0:
+                    self._deferred = id(ev)
+                    self.execute(ev)
+                else:
+                    self.loop.call_soon(later, n - 1, context=contextvars.Context())
+            self.loop.call_soon(later, iters, context=contextvars.Context())
+            return
+        self._deferred = None
         self.concrete.append(ev)
         self.log.append(("in", event_token(ev), now))
         try:
@@ -217,8 +232,12 @@ class Runner:
             opts.append((W.OBSERVE, W.uint_bytes(obs)))
         data = W.build(mt, code, mid, bytes.fromhex(tok) if tok != "-" else b"", opts,
                        str(body).encode() if body else b"")
-        self.net.inject(data, self.sockaddr(remote),
-                        local=netsim.LOCAL_MULTICAST if mcl else netsim.LOCAL_UNICAST)
+        local = netsim.LOCAL_UNICAST
+        if mcl == "v4":
+            local = netsim.LOCAL_MULTICAST_V4
+        elif mcl:
+            local = netsim.LOCAL_MULTICAST
+        self.net.inject(data, self.sockaddr(remote), local=local)
 
     def do_P(self, ev):
         import aiocoap
@@ -240,6 +259,31 @@ class Runner:
         if il:
             self.srv_done.add(sv)
         pipe.add_response(msg, is_last=il)
+
+    def do_H(self, ev):
+        """["H", t, srv, r, remote]: the handler serving request `srv` issues request `r` through the
+        same context and awaits it (what aiocoap's forward proxy does); the awaiting task is cancelled
+        when the served request's pipe loses interest, as run_driving_pipe does for render tasks.
+        Oracle-only scenarios (the Lean model has no handler tasks)."""
+        import aiocoap
+        _, t, sv, r, remote = ev
+        pipe = self.srv_pipes.get(sv)
+        if pipe is None:
+            return
+        msg = aiocoap.Message(code=aiocoap.GET, payload=str(100 + r).encode())
+        msg.remote = netsim.remote_for(self.net, self.sockaddr(remote))
+
+        async def handler():
+            req = self.ctx.request(msg, handle_blockwise=False)
+            self.requests[r] = req
+            req.response.add_done_callback(lambda f: f.cancelled() or f.exception())
+            req.response.add_done_callback(
+                lambda f, r=r: self.done_calls.__setitem__(r, self.done_calls.get(r, 0) + 1))
+            await req.response
+
+        task = self.loop.create_task(handler())
+        task.add_done_callback(lambda f: f.cancelled() or f.exception())
+        pipe.on_interest_end(task.cancel)
 
     def do_C(self, ev):
         self.requests[ev[2]].response.cancel()
